@@ -19,6 +19,18 @@ def norm_item(interned, it):
     k = it[0]
     if k in ("slice", "io"):
         src = it[1]
+        # a slice of the temporary produced by x.to_continuous_buffer() is the nested serialisation of x
+        # (`buf.extend_from_slice(&x.to_continuous_buffer())` == `buf.append(&mut x.to_continuous_buffer())`)
+        t = None
+        if isinstance(src, tuple) and src and src[0] == "loc" and src[1] and src[1][0] == "D" and not src[2]:
+            t = src[1][1]
+        elif isinstance(src, tuple) and src and src[0] == "sym":
+            t = src[1]
+        while isinstance(t, tuple) and t and t[0] == "call" and len(t[2]) >= 1 and t[1].split("::")[-1] in ("deref", "as_ref", "as_slice", "borrow", "deref_mut", "as_mut_slice"):
+            a0 = t[2][0]
+            t = a0[1] if (isinstance(a0, tuple) and a0 and a0[0] == "sym") else None
+        if isinstance(t, tuple) and t and t[0] == "call" and t[1].split("::")[-1] in ("to_continuous_buffer", "to_buffers"):
+            return ("nested", tuple(norm_src(a) for a in t[2]))
         return ("src", norm_src(src))
     if k == "nested":
         v = it[1]
